@@ -347,9 +347,11 @@ theorem safe_updRest {id1 id2 A loc n oldId : Bytes} {d : Nat} (o2 : List Nat)
   split at hq
   · rcases List.mem_append.mp hq with hq | hq
     · obtain ⟨db, _, rfl⟩ := List.mem_map.mp hq
-      show n ≠ loc ∨ ∃ ρ, fourKeys oldId = fourKeys ρ ∧ (db ≠ d ∨ ρ ≠ A)
+      show n ≠ loc ∨ ∃ ρ, (∀ k ∈ fourKeys oldId, k.1 = ρ) ∧ (ρ, Kind.offset) ∈ fourKeys oldId ∧
+        (db ≠ d ∨ ρ ≠ A)
       by_cases h : n = loc
-      · exact Or.inr ⟨oldId, rfl, Or.inr (hA h)⟩
+      · refine Or.inr ⟨oldId, ?_, by simp [fourKeys], Or.inr (hA h)⟩
+        intro k hk; simp [fourKeys] at hk; rcases hk with rfl | rfl | rfl | rfl <;> rfl
       · exact Or.inl h
     · split at hq
       · rename_i h
@@ -428,6 +430,27 @@ theorem update_prefix_inv (ver : Bytes) {id1 id2 loc : Bytes} {t₀ : Target} {n
     have hhash2 : getHash t₂.hash [id1, id2] = some (loc, id1) :=
       getHash_of_first (hlookup_hashSet_self _ _ _) P.hloc
     have hcps2 : ∀ db nm, t₂.cps db nm = (applyReq t₀ R1).cps db nm := fun _ _ => rfl
+    -- no `_runid` field of the ids under the new key stores "?"
+    have hridok2 : ∀ db, ∀ e ∈ t₂.cps db loc, ridSel [id1, id2] e = true → e.val ≠ qmark := by
+      have hold : ∀ db, ∀ e ∈ t₀.cps db loc, ridSel [id1, id2] e = true → e.val ≠ qmark := by
+        intro db e he hs
+        by_cases hnl : n = loc
+        · rw [ridSel_iff] at hs
+          rw [P.own db e (hnl ▸ he) hs.2]
+          rcases (matchId_pair id1 id2 _).mp hs.1 with h | h <;> rw [h]
+          · exact P.h1q
+          · exact P.h2q
+        · rw [ridSel_iff, P.fresh hnl db e he] at hs; exact absurd hs.1 (by decide)
+      intro db e he hs
+      rw [hcps2, hcps1] at he
+      split at he
+      · rename_i hc
+        rcases mem_result he with rfl | he' | he'
+        · rw [ridSel_iff] at hs; exact absurd hs.2 (by simp [cpOff])
+        · rw [ridSel_iff] at hs
+          rw [(mem_cpPre he').2.2.2.1 hs.2]; exact P.h1q
+        · exact hold d e he' hs
+      · exact hold db e he hs
     -- choose the carrier and establish the invariant under the new key
     have hinv2 : ∃ A, (A = id1 ∨ A = id2) ∧ (n = loc → c'.runId ≠ A) ∧
         Inv id1 id2 A t₂ loc id1 d X := by
@@ -436,13 +459,13 @@ theorem update_prefix_inv (ver : Bytes) {id1 id2 loc : Bytes} {t₀ : Target} {n
           have := hholds1.congr (t' := t₂) (fun db => hcps2 db n)
           rw [hnl] at this; exact this
         by_cases hold : c'.runId = id1
-        · refine ⟨id2, Or.inr rfl, fun _ => by rw [hold]; exact P.hne, hhash2, hh2, ?_⟩
+        · refine ⟨id2, Or.inr rfl, fun _ => by rw [hold]; exact P.hne, hhash2, hh2, ?_, hridok2⟩
           have hcar := P.orphan hnl (by rw [← hrid']; exact hold)
           unfold Carrier at hcar ⊢
           rw [hcps2, hcps1]; simp only [and_self, if_true]
           obtain ⟨e1, e2⟩ := written_other (fs := t₀.cps d loc) (c := c') (now := now) P.hne
           rw [e1, e2]; rw [hnl] at hcar; exact hcar
-        · refine ⟨id1, Or.inl rfl, fun _ => hold, hhash2, hh2, ?_⟩
+        · refine ⟨id1, Or.inl rfl, fun _ => hold, hhash2, hh2, ?_, hridok2⟩
           unfold Carrier
           rw [hcps2, hcps1]; simp only [and_self, if_true]
           constructor
@@ -456,7 +479,7 @@ theorem update_prefix_inv (ver : Bytes) {id1 id2 loc : Bytes} {t₀ : Target} {n
             rw [ridSel_iff, matchId_one] at hs
             rw [P.own d e (hnl ▸ he) hs.2, hs.1]; exact P.h1q
       · have hfr := P.fresh hnl
-        refine ⟨id1, Or.inl rfl, fun h => absurd h hnl, hhash2, ?_, ?_⟩
+        refine ⟨id1, Or.inl rfl, fun h => absurd h hnl, hhash2, ?_, ?_, hridok2⟩
         · refine ⟨P.holds.nonneg, ?_, ?_, ?_, ?_⟩
           · intro db
             rw [hcps2, hcps1]
